@@ -19,6 +19,7 @@ pub const SUITES: &[(&str, fn(&Sx) -> Sx)] = &[("randcode", randcode)];
 const ALLOC_BOUND: i32 = 100_000;
 const NBR_BOUND: i32 = 1_000;
 const SIZE_BOUND: usize = 200_000;
+const RAND_POINTS_BOUND: u32 = 1_000;
 const MAX_STEPS: usize = 200;
 
 const ALLOC_NAMES: &[&str] = &[
@@ -97,6 +98,12 @@ fn inside_envelope(st: &PushState) -> bool {
         if n == "EXEC.CMD" { return false; }
         if ALLOC_NAMES.contains(&n) && !ints_le(st, 1, ALLOC_BOUND) { return false; }
         if NBR_NAMES.contains(&n) && !ints_le(st, 4, NBR_BOUND) { return false; }
+        if n == "CODE.RAND" {
+            if let Some(z) = st.int_stack.get(0) {
+                let limit = u32::min(z.unsigned_abs(), st.configuration.max_points_in_random_expressions.unsigned_abs());
+                if limit > RAND_POINTS_BOUND { return false; }
+            }
+        }
     }
     measure(st) <= SIZE_BOUND
 }
